@@ -285,6 +285,9 @@ def nat_shapes(h):
     conformant(('iterable after delete_resource',), lambda: Flow(*four()[:3], delete_resource(0), four()[3]).results(), [3, 2, 4])
     conformant(('iterable after delete_resource, then delete by position',),
                lambda: Flow(*four()[:3], delete_resource(0), four()[3], delete_resource(2)).results(), [3, 2])
+    from dataflows import sources
+    conformant(('sources behind other resources',), lambda: Flow(*four()[:2], sources(four()[2], four()[3])).results(), [2, 3, 2, 4])
+    conformant(('two sources steps',), lambda: Flow(sources(four()[0]), sources(four()[1], four()[2])).results(), [2, 3, 2])
     conformant(('duplicate in the middle',), lambda: Flow(*four(), duplicate('res_2', target_name='copy', target_path='copy.csv')).results(),
                [2, 3, 3, 2, 4])
     # one computed-field specification over SEVERAL selected resources whose same-named source columns differ in type: each
@@ -346,3 +349,6 @@ ITEMS = [
     Item('schema_validator', K14.sym_schema_validator, [], 'dataflows/base/schema_validator.py::schema_validator'),
     Item('set_type', K14.sym_set_type_selection, [('multi-resource', K14.nat_set_type_multi)], P + 'set_type.py::set_type.process_datapackage'),
 ]
+
+from contracts import reuse as _REUSE   # noqa: E402
+ITEMS.append(Item('second-use', None, [('catalogue', _REUSE.nat_second_use_for('C02'))], 'dataflows/base/datastream_processor.py::DataStreamProcessor._process'))
